@@ -4,7 +4,7 @@
    Model: Lattice/Tomb.v -- settomb_ops (SetUnionWithTombstones) and maptomb_ops
    (MapUnionWithTombstones over any value lattice); one model for the hash / roaring / fst
    tombstone backends (their interchangeability is what the correspondence check tests). *)
-From HV Require Import Lattice.Model Lattice.Ord Lattice.PMap Lattice.Tomb Lattice.PTomb.
+From HV Require Import Lattice.Model Lattice.Ord Lattice.PMap Lattice.Tomb Lattice.PTomb Lattice.PTombChk.
 From Coq Require Import Permutation.
 
 (* ---- the tombstone lattices are lattices: C01--C03 hold for them too *)
@@ -109,6 +109,34 @@ Theorem C05_map_flag_needs_disjoint_refuted :
     fst (m (maptomb_ops (max_ops None)) a b) <> fst a.
 Proof. exact maptomb_flag_needs_disjoint_refuted. Qed.
 Print Assumptions C05_map_flag_needs_disjoint_refuted.
+
+(* ---- the executable form of the property, which the check evaluates on the implementation's
+   outputs (Tomb.C05_set_holds_b / C05_map_holds_b), is tied to the theorems above:
+   on duplicate-free observations the set form says exactly what C05_set_tree concludes ... *)
+Theorem C05_set_holds_b_sound : forall ss live tomb, NoDup live -> NoDup tomb ->
+  (set_res_ok ss live tomb = true <->
+   (forall x, In x live <-> in_live ss x /\ ~ in_tomb ss x) /\
+   (forall x, In x tomb <-> in_tomb ss x) /\
+   (forall x, In x live -> ~ In x tomb)).
+Proof. exact set_res_ok_spec. Qed.
+Print Assumptions C05_set_holds_b_sound.
+
+(* ... and the model's own observations (every step of the history, the changed flags, any
+   merge tree over the same states) satisfy it, for sets and for maps over any value lattice *)
+Theorem C05_set_holds_b_model : forall init others (t : mtree tstate),
+  Forall (W settomb_ops) (init :: others) ->
+  (forall s, In s (leaves t) <-> In s (init :: others)) ->
+  C05_set_holds_b init others [model_steps settomb_ops init others] [teval settomb_ops t] = true.
+Proof. exact C05_set_holds_b_model. Qed.
+Print Assumptions C05_set_holds_b_model.
+
+Theorem C05_map_holds_b_model : forall V (LV : LatOps V), LatLaws LV ->
+  forall init others (t : mtree (mstate V)),
+  Forall (W (maptomb_ops LV)) (init :: others) ->
+  (forall s, In s (leaves t) <-> In s (init :: others)) ->
+  C05_map_holds_b LV init others [model_steps (maptomb_ops LV) init others] [teval (maptomb_ops LV) t] = true.
+Proof. exact C05_map_holds_b_model. Qed.
+Print Assumptions C05_map_holds_b_model.
 
 (* ---- non-vacuity: well-formed, non-trivial replica states; a tree in which an item is live
    in one replica and tombstoned in another *)
